@@ -4,6 +4,7 @@ set -e
 cd "$(dirname "$0")"
 export CARGO_NET_OFFLINE=true
 ( cd harness && cargo build --release )
+( cd plain && cargo build --release )
 if [ -d fuzz ] && [ -f fuzz/Cargo.toml ]; then
   ( cd fuzz && cargo +nightly fuzz build --fuzz-dir "$(pwd)" -s none 2>&1 | tail -3 ) || echo "fuzz build failed (thorough tiers that use libFuzzer will report exit 2)" >&2
 fi
